@@ -362,6 +362,7 @@ type layout struct {
 	Files  map[string]string `json:"files"` // path -> JSON text
 	MaxJob int               `json:"maxjob"`
 	Bound  int               `json:"bound"`
+	Base   string            `json:"base,omitempty"` // directory handed to Load ("" = the filespace root)
 }
 
 func layouts(thorough bool) []layout {
@@ -379,17 +380,27 @@ func layouts(thorough bool) []layout {
 	}
 	// files of very different sizes (size-dependent code paths in the store)
 	out = append(out,
-		layout{"big-and-small", map[string]string{"big.json": bigDoc("b", 40), "small.json": `{"s":"S"}`}, 2, b},
-		layout{"two-big", map[string]string{"x.json": bigDoc("x", 17), "y.json": bigDoc("y", 33)}, 2, b},
+		layout{"big-and-small", map[string]string{"big.json": bigDoc("b", 40), "small.json": `{"s":"S"}`}, 2, b, ""},
+		layout{"two-big", map[string]string{"x.json": bigDoc("x", 17), "y.json": bigDoc("y", 33)}, 2, b, ""},
 	)
 	for _, mj := range []int{1, 2} {
 		out = append(out,
-			layout{"one-file", map[string]string{"en.json": `{"a":"A","n":{"x":"NX"}}`}, mj, b + 1},
-			layout{"two-files", map[string]string{"en.json": `{"a":"A"}`, "pl.json": `{"b":"B","c":{"d":"CD"}}`}, mj, b},
-			layout{"three-files-two-dirs", map[string]string{"en.json": `{"a":"A"}`, "d/pl.json": `{"b":"B"}`, "d/de.json": `{"c":"C"}`, "d/readme.txt": "not json"}, mj, b},
-			layout{"nested-dir", map[string]string{"x/y/z.json": `{"deep":"D"}`, "top.json": `{"t":"T"}`}, mj, b},
+			layout{"one-file", map[string]string{"en.json": `{"a":"A","n":{"x":"NX"}}`}, mj, b + 1, ""},
+			layout{"two-files", map[string]string{"en.json": `{"a":"A"}`, "pl.json": `{"b":"B","c":{"d":"CD"}}`}, mj, b, ""},
+			layout{"three-files-two-dirs", map[string]string{"en.json": `{"a":"A"}`, "d/pl.json": `{"b":"B"}`, "d/de.json": `{"c":"C"}`, "d/readme.txt": "not json"}, mj, b, ""},
+			layout{"nested-dir", map[string]string{"x/y/z.json": `{"deep":"D"}`, "top.json": `{"t":"T"}`}, mj, b, ""},
 		)
 	}
+	// the loaded directory is a sub-directory (three spellings); values with every kind of escape; files
+	// whose names merely contain ".json" hold other values for the same keys and must not be loaded
+	esc := `{"q":"a\"b","u":"\u00e9","sl":"a\/b","sp":"\ud83d\ude00","nl":"x\ny","deep":{"er":{"k":"v"}}}`
+	// (the walk joins base and name textually, so the base is spelled with its trailing slash; a base
+	// without it makes Load fail loudly - outside the statement's quantifier, noted in DESIGN.md)
+	for _, base := range []string{"lang/", "./lang/", "lang/sub/"} {
+		pre := strings.TrimPrefix(base, "./")
+		out = append(out, layout{Name: "subdir-" + base, Files: map[string]string{pre + "en.json": `{"a":"A","n":{"x":"NX"}}`, pre + "more/pl.json": esc, pre + "en.json.bak": `{"a":"WRONG"}`, pre + "notes.jsonl": `{"a":"WRONG2"}`}, MaxJob: 2, Bound: 0, Base: base})
+	}
+	out = append(out, layout{Name: "escapes", Files: map[string]string{"e.json": esc, "z.json": `{"zz":"Z"}`}, MaxJob: 1, Bound: 1})
 	return out
 }
 
@@ -420,7 +431,7 @@ func loaderBody(l layout, o *loadObs) func() {
 			}
 		}
 		i18 := i18mem.NewI18N()
-		if err := fsi18loader.Load(fs, "", i18, nil); err != nil {
+		if err := fsi18loader.Load(fs, l.Base, i18, nil); err != nil {
 			o.err = err.Error()
 		}
 		var ks []string
@@ -713,7 +724,7 @@ var _ = bytes.Contains
 
 func init() {
 	fw.Register(&fw.Check{ID: "C20", Level: "exploration",
-		Rule: "all nested maps over keys {a,b,é} with depth<=3 and <=3 (quick) / <=4 (thorough) leaves, plus deep maps (spine of depth 1..12 / 1..20 with 1-3 sibling leaves at the bottom, with and without a side leaf per level) (flatten/rebuild both ways, string variant); all JSON documents of 4 nested-object shapes whose string leaf ranges over every string of <=2 (quick) / <=3 (thorough) symbols from {a, quote, backslash, slash, newline, tab, U+0001, é, U+1F600} in every JSON spelling (incl. surrogate pairs) (raw and escaped), plus number/true/null/array leaves, compared with encoding/json (UseNumber); all flat maps from 8 prefix-free key sets x every value string of <=2/3 symbols from {a, quote, backslash, slash, newline, tab, 0x01, é, '<', U+2028, U+1F600, U+10000, U+FFFF, 0x7f} written compact and formatted (valid for encoding/json, same map, round trip); plus EVERY prefix-free set of <=3/<=4 keys from all 30 paths of depth <=2 over the segments {s, s1, s10, s-, é} (names that are prefixes of one another or sort around the separator); translation loader on 10 directory layouts (1-4 files, 1-40 keys per file) under every schedule with <= bound preemptions. distinct = inputs/schedules",
+		Rule: "all nested maps over keys {a,b,é} with depth<=3 and <=3 (quick) / <=4 (thorough) leaves, plus deep maps (spine of depth 1..12 / 1..20 with 1-3 sibling leaves at the bottom, with and without a side leaf per level) (flatten/rebuild both ways, string variant); all JSON documents of 4 nested-object shapes whose string leaf ranges over every string of <=2 (quick) / <=3 (thorough) symbols from {a, quote, backslash, slash, newline, tab, U+0001, é, U+1F600} in every JSON spelling (incl. surrogate pairs) (raw and escaped), plus number/true/null/array leaves, compared with encoding/json (UseNumber); all flat maps from 8 prefix-free key sets x every value string of <=2/3 symbols from {a, quote, backslash, slash, newline, tab, 0x01, é, '<', U+2028, U+1F600, U+10000, U+FFFF, 0x7f} written compact and formatted (valid for encoding/json, same map, round trip); plus EVERY prefix-free set of <=3/<=4 keys from all 30 paths of depth <=2 over the segments {s, s1, s10, s-, é} (names that are prefixes of one another or sort around the separator); translation loader on 14 directory layouts (1-4 files, 1-40 keys per file; sub-directories as the loaded base in three spellings; escaped values; look-alike file names that must not be loaded) under every schedule with <= bound preemptions. distinct = inputs/schedules",
 		Run: run, Replay: replay,
 		Assumptions: []string{"encoding/json is the reference JSON decoder", "loader values are %-free (Translate is a format API)", "2-3 preemptions, MaxJob 1-2 for the loader"}})
 }
